@@ -531,3 +531,14 @@ Example sts_reaches_tls_example :
   = Ok (Conn (Server h 6697 4 true) true true).
 Proof. vm_compute. reflexivity. Qed.
 
+
+(* the server is configured ON the port of its stored policy: the policy is still applied -- verification is forced --
+   with ssl off (TLS is started all the same) and with ssl on *)
+Example sts_reaches_tls_same_port :
+  let h := [104] in
+  let pol := s_port ++ [61;54;54;57;55;44] ++ s_duration ++ [61;49;48;48;48] in
+  snd (connectS [Server h 6697 (-1) false] 50 (Net [(h, pol)] [(h, 20%Z)]) (Mixin [] None) 3 false false false false)
+  = Ok (Conn (Server h 6697 4 true) true true) /\
+  snd (connectS [Server h 6697 (-1) false] 50 (Net [(h, pol)] [(h, 20%Z)]) (Mixin [] None) 3 true false false false)
+  = Ok (Conn (Server h 6697 4 true) true true).
+Proof. vm_compute. split; reflexivity. Qed.
